@@ -8,67 +8,190 @@ How an input change is made coincident with a clock edge.  In pysim a *testbench
 into the same ``ctx.set`` as a clock is seen by a flop sampling it directly with its NEW value (testbench
 race; probed).  The convention of the specification ("sampled before the event", DESIGN.md Appendix A) is
 pysim's semantics for signals driven by *design registers* clocked in that event.  The primitive's input is
-therefore a register of a harness source domain ``src`` (``m.d.src += inp.eq(nxt)``): an input change that
+therefore an expression over registers of a harness source domain ``src`` (``m.d.src += x.eq(nxt)``; the
+expression is the signal itself, ``~x``, a slice, ``ResetSignal("sync")``, ``ResetSignal("sync") | req``;
+the trace records the expression's *value*): an input change that
 coincides with clock edges is produced by pulsing ``src``'s clock in the same ``ctx.set`` as those clocks
 (``nxt`` is staged beforehand, invisible to the primitive).  A change between edges is either a ``src``-only
 event or a direct testbench override ``ctx.set(inp, v)`` (via = 1 / 0).  The output domain's reset is only
 changed in events without an output-clock edge (same race otherwise; excluded at generation)."""
-from amaranth.hdl import Cat, ClockDomain, Module, Signal
+import random
+
+from amaranth.hdl import Cat, ClockDomain, Module, Signal, ResetSignal
 from amaranth.sim import Simulator
 from amaranth.lib import cdc as _cdc
 
 PRIMS = ("ff", "async", "reset", "pulse")
+# the design family around the primitive (spec keys; all optional):
+#   o_name / i_name  names of the output / input clock domains ("sync" = the default: the parameter is omitted
+#                    where the class has a default)
+#   sync             True: an unrelated, active "sync" domain (own clock, own reset, a counter) exists next to them
+#   expr             what the primitive's input is:  "sig" a plain Signal | "not" ~x | "bit" a slice of a wider
+#                    signal | "rst" ResetSignal("sync") | "rst_or" ResetSignal("sync") | req     (the last two
+#                    derive a secondary domain's reset from the main one; they need sync=True)
+#   nseed            seed of the driver's own choices (operand values with the same expression value, edges of the
+#                    unrelated clock, toggling of the unrelated reset)
+EXPRS_1BIT = ("sig", "not", "bit", "rst", "rst_or")
+EXPRS_FF = ("sig", "not", "bit")
+
+
+class _Input:
+    """The primitive's input as an expression over operand registers of the harness source domain."""
+    def __init__(self, m, kind, width, i0, cd_sync, own=None):
+        self.kind, self.width, self.mask = kind, width, (1 << width) - 1
+        mask = self.mask
+        if kind == "sig":
+            x = own if own is not None else Signal(width, name="inp", init=i0)
+            self.ops, self.u, self.expr = [x], [i0], x
+        elif kind == "not":
+            x = Signal(width, name="x", init=~i0 & mask)
+            self.ops, self.u, self.expr = [x], [~i0 & mask], ~x
+        elif kind == "bit":
+            x = Signal(width + 3, name="wide", init=(i0 << 2) | 1)
+            self.ops, self.u, self.expr = [x], [(i0 << 2) | 1], x[2:2 + width]
+        elif kind == "rst":
+            if i0 or cd_sync is None:
+                raise ValueError("expr=rst needs the unrelated sync domain and i0=0")
+            self.ops, self.u, self.expr = [cd_sync.rst], [0], ResetSignal("sync")
+        elif kind == "rst_or":
+            if cd_sync is None:
+                raise ValueError("expr=rst_or needs the unrelated sync domain")
+            req = Signal(1, name="req", init=i0)
+            self.ops, self.u, self.expr = [cd_sync.rst, req], [0, i0], ResetSignal("sync") | req
+        else:
+            raise ValueError(kind)
+        self.n_expr_ops = len(self.ops)
+        if cd_sync is not None and kind not in ("rst", "rst_or"):
+            self.ops.append(cd_sync.rst)          # unrelated reset: toggles, never part of the value
+            self.u.append(0)
+        self.nxts = [Signal(len(o), name="nxt%d" % k) for k, o in enumerate(self.ops)]
+        for o, n in zip(self.ops, self.nxts):
+            m.d.src += o.eq(n)
+
+    def value(self, u):
+        k, mask = self.kind, self.mask
+        if k == "sig":
+            return u[0]
+        if k == "not":
+            return ~u[0] & mask
+        if k == "bit":
+            return (u[0] >> 2) & mask
+        if k == "rst":
+            return u[0]
+        return u[0] | u[1]
+
+    def solve(self, v, u, rng, noise):
+        """operand values with expression value v (noise: also move what does not matter)"""
+        k, mask = self.kind, self.mask
+        new = list(u)
+        if k == "sig":
+            new[0] = v
+        elif k == "not":
+            new[0] = ~v & mask
+        elif k == "bit":
+            rest = u[0] & ~(mask << 2)
+            if noise:
+                rest = rng.getrandbits(2) | (rng.getrandbits(1) << (self.width + 2))
+            new[0] = (v << 2) | rest
+        elif k == "rst":
+            new[0] = v
+        else:
+            if v == 0:
+                new[0], new[1] = 0, 0
+            elif noise or (u[0] | u[1]) == 0:
+                new[0], new[1] = rng.choice([(1, 0), (0, 1), (1, 1)])
+        if len(self.ops) > self.n_expr_ops and noise and rng.random() < 0.3:
+            new[-1] ^= 1
+        return new
+
+    def pack(self, u):
+        bits, sh = 0, 0
+        for o, x in zip(self.ops, u):
+            bits |= x << sh
+            sh += len(o)
+        return bits, sh
 
 
 def build(spec):
     prim = spec["prim"]
     stages = spec["stages"]
     width = spec.get("width", 1) if prim == "ff" else 1
+    o_name = spec.get("o_name", "o")
+    i_name = spec.get("i_name", "i")
+    kind = spec.get("expr", "sig")
+    i0 = spec.get("i0", 0)
     m = Module()
     m.domains.src = cs = ClockDomain("src", reset_less=True)
-    m.domains.i = ci = ClockDomain("i", reset_less=True)
-    m.domains.o = co = ClockDomain("o", reset_less=prim in ("async", "pulse"))
-    nxt = Signal(width, name="nxt")
+    co = ClockDomain(o_name, reset_less=prim in ("async", "pulse"))
+    m.domains += co
+    ci = None
     if prim == "pulse":
-        m.submodules.dut = dut = _cdc.PulseSynchronizer("i", "o", stages=stages)
-        inp, out = dut.i, dut.o
-        if spec.get("i0", 0):
-            raise ValueError("PulseSynchronizer.i has initial value 0")
+        ci = ClockDomain(i_name, reset_less=True)
+        m.domains += ci
+    cd_sync = None
+    if spec.get("sync"):
+        if "sync" in (o_name, i_name if prim == "pulse" else None):
+            raise ValueError("the unrelated sync domain needs o/i domains with other names")
+        cd_sync = ClockDomain("sync")
+        m.domains += cd_sync
+        cnt = Signal(4, name="sync_counter")
+        m.d.sync += cnt.eq(cnt + 1)
+    od = {} if o_name == "sync" else {"o_domain": o_name}
+    if prim == "pulse":
+        if kind != "sig" or i0:
+            raise ValueError("PulseSynchronizer.i is its own signal with initial value 0")
+        m.submodules.dut = dut = _cdc.PulseSynchronizer(i_name, o_name, stages=stages)
+        inp = _Input(m, "sig", 1, 0, cd_sync, own=dut.i)
+        out = dut.o
     else:
-        inp = Signal(width, name="inp", init=spec.get("i0", 0))
+        inp = _Input(m, kind, width, i0, cd_sync)
         if prim == "ff":
             out = Signal(width, name="out", init=spec.get("init", 0))
-            kw = {}
+            kw = dict(od)
             if "init" in spec:
                 kw["init"] = spec["init"]
             if "reset_less" in spec:
                 kw["reset_less"] = bool(spec["reset_less"])
-            m.submodules.dut = _cdc.FFSynchronizer(inp, out, o_domain="o", stages=stages, **kw)
+            m.submodules.dut = _cdc.FFSynchronizer(inp.expr, out, stages=stages, **kw)
         elif prim == "async":
             out = Signal(1, name="out")
-            m.submodules.dut = _cdc.AsyncFFSynchronizer(inp, out, o_domain="o", stages=stages,
-                                                        async_edge=spec.get("edge", "pos"))
+            m.submodules.dut = _cdc.AsyncFFSynchronizer(inp.expr, out, stages=stages,
+                                                        async_edge=spec.get("edge", "pos"), **od)
         elif prim == "reset":
-            m.submodules.dut = _cdc.ResetSynchronizer(inp, domain="o", stages=stages)
+            m.submodules.dut = _cdc.ResetSynchronizer(inp.expr, stages=stages,
+                                                      **({} if o_name == "sync" else {"domain": o_name}))
             out = co.rst
         else:
             raise ValueError(prim)
-    m.d.src += inp.eq(nxt)
-    return m, cs, ci, co, inp, nxt, out
+    return m, cs, ci, co, cd_sync, inp, out
 
 
 def run(spec, events):
-    """events: list of (ie, oe, v, r, via).  Returns (o0, steps) with steps = [[ie, oe, v, r, o], ...]
-    (the CdcTrace step format)."""
-    m, cs, ci, co, inp, nxt, out = build(spec)
+    """events: list of (ie, oe, v, r, via); v = value of the primitive's input (expression) after the event.
+    Returns (o0, steps) with steps = [[ie, oe, v, r, o], ...] (the CdcTrace step format)."""
+    m, cs, ci, co, cd_sync, inp, out = build(spec)
     has_rst = spec["prim"] == "ff"
+    rng = random.Random(spec.get("nseed", 0))
     sim = Simulator(m)
     res = {"o0": None, "steps": []}
-    clocks = Cat(cs.clk, ci.clk, co.clk, co.rst) if has_rst else Cat(cs.clk, ci.clk, co.clk)
-    w = len(inp)
+    clks = [cs.clk, ci.clk if ci is not None else None, co.clk, cd_sync.clk if cd_sync is not None else None]
+    pos = {}
+    sigs = []
+    for name, c in zip(("src", "i", "o", "sync"), clks):
+        if c is not None:
+            pos[name] = len(sigs)
+            sigs.append(c)
+    if has_rst:
+        pos["rst"] = len(sigs)
+        sigs.append(co.rst)
+    clocks = Cat(*sigs)
+    ops = Cat(*inp.ops)
 
     async def tb(ctx):
-        cur = spec.get("i0", 0)
+        u = list(inp.u)
+        cur = inp.value(u)
+        if cur != spec.get("i0", 0):
+            raise RuntimeError("harness: initial input value")
         rst = 0
         res["o0"] = ctx.get(out)
         for ev in events:
@@ -78,22 +201,31 @@ def run(spec, events):
                 r = 0
             if oe and r != rst:
                 raise ValueError("reset change coincident with an output-clock edge is not generated")
-            change = v != cur
-            if (ie or oe or via) or not change:
-                if change:
-                    ctx.set(nxt, v)                                   # staging; invisible to the primitive
-                bits = (1 if change else 0) | (2 if ie else 0) | (4 if oe else 0) | ((r << 3) if has_rst else 0)
+            if ie and ci is None:
+                raise ValueError("input-clock edge for a primitive without input domain")
+            noise = rng.random() < 0.3
+            new = inp.solve(v, u, rng, noise) if (v != cur or noise) else u
+            se = cd_sync is not None and (rng.random() < 0.4 or not (ie or oe or new != u or r != rst))
+            keep = (r << pos["rst"]) if has_rst else 0
+            if (ie or oe or via or se) or new == u:
+                if new != u:
+                    for n, x in zip(inp.nxts, new):
+                        ctx.set(n, x)                                 # staging; invisible to the primitive
+                bits = keep | ((1 << pos["src"]) if new != u else 0) | ((1 << pos["i"]) if ie else 0) | \
+                    ((1 << pos["o"]) if oe else 0) | ((1 << pos["sync"]) if se else 0)
                 ctx.set(clocks, bits)                                 # ---- the event
             else:
+                b, sh = inp.pack(new)                                 # ---- the event (direct change of operands)
                 if has_rst:
-                    ctx.set(Cat(inp, co.rst), v | (r << w))           # ---- the event (direct input change)
+                    ctx.set(Cat(ops, co.rst), b | (r << sh))
                 else:
-                    ctx.set(inp, v)
-            if ctx.get(inp) != v:
-                raise RuntimeError("harness: input is %r, expected %r" % (ctx.get(inp), v))
+                    ctx.set(ops, b)
+            u = [ctx.get(o) for o in inp.ops]
+            if u != new or inp.value(u) != v:
+                raise RuntimeError("harness: operands are %r, expected %r (value %r)" % (u, new, v))
             cur, rst = v, r
             o = ctx.get(out)
-            ctx.set(clocks, (r << 3) if has_rst else 0)               # clocks fall; nothing may change
+            ctx.set(clocks, keep)                                     # clocks fall; nothing may change
             o2 = ctx.get(out)
             if o2 != o:
                 o = o | (1 << 20)                                     # rejected by every contract
@@ -107,7 +239,9 @@ def run(spec, events):
 def trace_of(spec, o0, steps):
     return {"prim": spec["prim"], "stages": spec["stages"], "init": spec.get("init", 0),
             "reset_less": int(bool(spec.get("reset_less", True))), "edge": spec.get("edge", "pos"),
-            "i0": spec.get("i0", 0), "o0": o0, "steps": steps}
+            "i0": spec.get("i0", 0), "o0": o0, "steps": steps,
+            "env": "o_domain=%s i_domain=%s unrelated_sync=%s input=%s" % (
+                spec.get("o_name", "o"), spec.get("i_name", "i"), bool(spec.get("sync")), spec.get("expr", "sig"))}
 
 
 # ------------------------------------------------------------------------------------------------
@@ -138,6 +272,9 @@ def gen_ff(rng, n, width, ratio=None):
                 rst ^= 1
                 out.append((0, 0, cur, rst, 1))
                 continue
+            if x < 0.08:
+                out.append((0, 0, cur, rst, 1))                  # unrelated event
+                continue
             if not busy:
                 out.append((0, 1, cur, rst, 1))
                 continue
@@ -161,7 +298,9 @@ def gen_async(rng, n, ratio=None):
     while len(out) < n:
         mode = rng.choice(["busy", "busy", "quiet", "glitch"])
         for _ in range(rng.randint(3, 30)):
-            if mode == "quiet":
+            if rng.random() < 0.07:
+                out.append((0, 0, cur, 0, 1))                    # unrelated event
+            elif mode == "quiet":
                 out.append((0, 1, cur, 0, 1))
             elif mode == "glitch" and rng.random() < 0.4:
                 cur ^= 1
@@ -192,6 +331,8 @@ def gen_pulse(rng, n, stages, ratio=None):
         density = rng.choice([0.05, 0.3, 0.7, 1.0, 0.0])
         hold = rng.choice([0.0, 0.0, 0.5, 1.0])        # probability to keep the input high after a pulse
         for _ in range(rng.randint(5, 50)):
+            if rng.random() < 0.05:
+                out.append((0, 0, cur, 0, 1))                    # unrelated event
             if rng.random() < pboth:
                 ie, oe = 1, 1
             else:
